@@ -38,7 +38,7 @@ impl Rng {
     }
 }
 
-pub const ALPHABETS: [&str; 12] = ["ab", "abc", "meta", "ws", "case", "graph", "astral", "classes", "sgr", "mixed", "clusters", "tokens"];
+pub const ALPHABETS: [&str; 13] = ["ab", "abc", "meta", "ws", "case", "graph", "astral", "classes", "sgr", "mixed", "clusters", "tokens", "sigma"];
 
 /// Unsplit multi-code-point graphemes mixing characters that are escaped/converted with ones that
 /// are not: Lo Prepend letters before X, and X before Extend characters that are not marks.
@@ -229,6 +229,8 @@ pub fn alphabet(name: &str) -> Vec<String> {
         ],
         // literal text that looks like grex's internal class tokens and escapes, next to members of those classes
         "tokens" => vec!["\\", "d", "D", "w", "W", "s", "S", "1", "a", " ", "-", "u", "{", "}", "n"],
+        // letters whose lower-casing depends on context or that share a fold orbit without being case variants
+        "sigma" => vec!["a", "b", "A", "\u{3c3}", "\u{3c2}", "\u{3a3}", "s", "\u{17f}", "S", "k", "\u{212a}", "\u{b5}", "\u{3bc}", "\u{39c}"],
         "sgr" => vec!["\u{1b}", "[", "m", "0", "1", "3", ";", "]", "a", "^", "$", "(", ")", "\\", "9", " "],
         "mixed" => vec![
             "a", "b", "A", "1", " ", ".", "\\", "é", "💩", "\u{301}", "\n", "#", "-", "^", "]", "\u{a0}", "ß", "\u{10ffff}", "x", "y", "|", "(", "*",
